@@ -482,6 +482,14 @@ ENCODERS = {
 }
 
 
+URI_CANARY = 'http://example.com/\u00e4 b?q=\u20ac'
+
+
+def uri_input(v, label):
+    """A URI / IRI / filename argument: one concrete non-ASCII sample first, then an arbitrary string."""
+    return URI_CANARY if pick(v, label + '-sample', 2) == 0 else v.str(label)
+
+
 def enc(v, which, x):
     """Specification side: the encoder `which` applied to x."""
     if v.concrete or isinstance(x, str):
@@ -649,7 +657,7 @@ def typed_value(v, attr, shape):
             want = it if i == 0 else want + ', ' + it
         return items, want, None
     if attr in ('content_location', 'location'):
-        x = v.str('uri')
+        x = uri_input(v, 'uri')
         return x, enc(v, 'uri.encode_check_escaped', x), None
     if attr in ('content_length', 'retry_after'):
         x = v.str('text') if shape == 0 else v.int('number', 0)
@@ -668,7 +676,7 @@ def typed_value(v, attr, shape):
         return (a, b, c, unit), unit + ' ' + to_s(v, a) + '-' + to_s(v, b) + '/' + to_s(v, c), None
     if attr in ('downloadable_as', 'viewable_as'):
         kind = 'attachment' if attr == 'downloadable_as' else 'inline'
-        fn = v.str('filename')
+        fn = uri_input(v, 'filename')
         if fn.isascii():
             v.cover('ascii-filename')
             return fn, kind + '; filename="' + fn + '"', None
@@ -910,7 +918,14 @@ def wsgi_headers(v):
     want_tail = list(X0 or []) + [(SC, o) for o in outs0]
     r = out.value
     if v.concrete:
-        v.check('each-plain-header-exactly-once-then-raw-lines-then-one-line-per-cookie', r == list(E.raw.items()) + want_tail)
+        n = len(E.raw)
+        ok = isinstance(r, list) and len(r) >= n
+        v.check('plain-headers-come-first-as-the-items-of-the-map', ok)
+        if not ok:
+            return
+        v.check('default-content-type-only-when-absent-never-overrides', dict(r[:n]).get('content-type') == E.raw.get('content-type'))
+        v.check('each-plain-header-exactly-once-at-any-key', r[:n] == list(E.raw.items()))
+        v.check('then-the-raw-lines-then-one-set-cookie-line-per-cookie', r[n:] == want_tail)
     else:
         ok = isinstance(r, SegList) and len(r.segments) >= 1 and isinstance(r.segments[0], SDictItems)
         v.check('plain-headers-come-first-as-the-items-of-the-map', ok)
@@ -994,11 +1009,9 @@ def _asgi_setup_symbolic(reg, ex):
 
 @harness(PROP, ARESP + '._asgi_headers', setup=_asgi_setup_symbolic)
 def asgi_headers(v):
-    """Arbitrary (symbolic) header map; _encode_items_to_latin1 replaced by its contract."""
+    """Arbitrary (symbolic) header map; _encode_items_to_latin1 replaced by its contract (the real function on replay)."""
     from pyvc.core import SegList
 
-    if v.concrete:
-        return  # the callee contract is a stub: replay is done by asgi_headers_small
     other, hdrs, H, X, X0, jar, outs0, mk, mt = _emission_world(v, ['content-type'])
     for _, line in (X0 or []):
         v.assume(in_range(line, 127))
@@ -1009,21 +1022,35 @@ def asgi_headers(v):
     E = H.put('content-type', mt) if (mt is not None and not H.has('content-type')) else H
     H1 = map_of(v, resp)
     v.check('emission-changes-the-map-only-by-the-default-content-type', H1.eq(E))
+    if v.concrete:
+        unencodable = any(not in_range(k, 255) or not in_range(x, 255) for k, x in E.raw.items())
+    else:
+        unencodable = v.ctx.labels.count('some-header-outside-latin-1=1') == 1
     if out.exc is not None:
-        v.check('only-a-header-outside-latin-1-fails-and-as-valueerror', out.exc.isa(ValueError) and not out.exc.isa(UnicodeError)
-                and v.ctx.labels.count('some-header-outside-latin-1=1') == 1)
+        v.check('only-a-header-outside-latin-1-fails-and-as-valueerror', out.exc.isa(ValueError) and not out.exc.isa(UnicodeError) and unencodable)
         v.cover('unencodable')
         return
     r = out.value
-    ok = isinstance(r, SegList) and len(r.segments) >= 1 and isinstance(r.segments[0], Latin1Items)
-    v.check('plain-headers-come-first-latin-1-encoded-items-of-the-map', ok)
-    if not ok:
-        return
-    v.check('default-content-type-only-when-absent-never-overrides', mk_bool(r.segments[0].arr == E.raw))
-    v.check('each-plain-header-exactly-once-at-any-key', Map(r.segments[0].arr).same_at(E, other))
     want_tail = [(b'set-cookie', as_bytes(line)) for _, line in (X0 or [])] + [(b'set-cookie', as_bytes(o)) for o in outs0]
-    tail = flatten(r.segments[1:])
-    v.check('then-the-raw-lines-then-one-set-cookie-line-per-cookie-as-lower-case-bytes', tail is not None and pairs_eq(tail, want_tail))
+    if v.concrete:
+        n = len(E.raw)
+        ok = isinstance(r, list) and len(r) >= n and not unencodable
+        v.check('plain-headers-come-first-latin-1-encoded-items-of-the-map', ok)
+        if not ok:
+            return
+        want_plain = [(as_bytes(k), as_bytes(x)) for k, x in E.raw.items()]
+        v.check('default-content-type-only-when-absent-never-overrides', dict(r[:n]).get(b'content-type') == dict(want_plain).get(b'content-type'))
+        v.check('each-plain-header-exactly-once-at-any-key', r[:n] == want_plain)
+        v.check('then-the-raw-lines-then-one-set-cookie-line-per-cookie-as-lower-case-bytes', r[n:] == want_tail)
+    else:
+        ok = isinstance(r, SegList) and len(r.segments) >= 1 and isinstance(r.segments[0], Latin1Items)
+        v.check('plain-headers-come-first-latin-1-encoded-items-of-the-map', ok)
+        if not ok:
+            return
+        v.check('default-content-type-only-when-absent-never-overrides', mk_bool(r.segments[0].arr == E.raw))
+        v.check('each-plain-header-exactly-once-at-any-key', Map(r.segments[0].arr).same_at(E, other))
+        tail = flatten(r.segments[1:])
+        v.check('then-the-raw-lines-then-one-set-cookie-line-per-cookie-as-lower-case-bytes', tail is not None and pairs_eq(tail, want_tail))
     v.check('raw-lines-and-cookie-jar-untouched', And(v.get(resp, '_extra_headers') is X, True if X is None else pairs_eq(X, X0), jar_untouched(v, resp, jar, outs0)))
     v.cover('emitted')
 
@@ -1393,14 +1420,16 @@ def unset_cookie(v):
             want[k] = kw[k]
     got = mine[2]
     # Max-Age takes precedence over Expires (RFC 6265, 5.3 step 3): an expired cookie has Expires in the past and no Max-Age
-    v.cover('unset-after-set' if jk == 2 else 'unset')
-    v.check('unset-cookie-is-expired', 'expires' in got and got['expires'] == -1 and 'max-age' not in got)
+    expired = 'expires' in got and got['expires'] == -1 and 'max-age' not in got
     if jk == 2:
+        # a cookie set earlier in the same response (set_cookie(...); unset_cookie(...)): named separately
         v.cover('unset-after-set')
-        v.check('unset-of-an-already-set-cookie-carries-exactly-expiry-samesite-domain-path', attrs_eq(got, want))
+        v.check('unset-after-set-cookie-is-expired', expired)
+        v.check('unset-after-set-cookie-carries-exactly-expiry-samesite-domain-path', attrs_eq(got, want))
     else:
-        v.check('unset-cookie-carries-exactly-expiry-samesite-domain-path', attrs_eq(got, want))
         v.cover('unset')
+        v.check('unset-cookie-is-expired', expired)
+        v.check('unset-cookie-carries-exactly-expiry-samesite-domain-path', attrs_eq(got, want))
 
 
 # ---------------------------------------------------------------------------
@@ -1410,7 +1439,8 @@ REL_CANARIES = ['http://example.com/ext-type', 'alternate http://example.com/ext
 
 
 def _append_link(v):
-    target = v.str('target')
+    samples = pick(v, 'uri-sample', 2) == 0
+    target = URI_CANARY if samples else v.str('target')
     rk = pick(v, 'rel', 3)
     if rk == 0:
         rel = v.str('rel')
@@ -1425,7 +1455,7 @@ def _append_link(v):
         kw['title'] = v.str('title')
         want = want + '; title="' + kw['title'] + '"'
     if pick(v, 'title_star?', 2):
-        kw['title_star'] = (v.str('title_lang'), v.str('title_text'))
+        kw['title_star'] = (v.str('title_lang'), URI_CANARY if samples else v.str('title_text'))
         want = want + "; title*=UTF-8\'" + kw['title_star'][0] + "\'" + enc(v, 'uri.encode_value_check_escaped', kw['title_star'][1])
     if pick(v, 'type_hint?', 2):
         kw['type_hint'] = v.str('type_hint')
@@ -1438,7 +1468,7 @@ def _append_link(v):
         kw['hreflang'] = [v.str('hreflang0'), v.str('hreflang1')]
         want = want + '; hreflang=' + kw['hreflang'][0] + '; hreflang=' + kw['hreflang'][1]
     if pick(v, 'anchor?', 2):
-        kw['anchor'] = v.str('anchor')
+        kw['anchor'] = URI_CANARY if samples else v.str('anchor')
         want = want + '; anchor="' + enc(v, 'uri.encode_check_escaped', kw['anchor']) + '"'
     ck = pick(v, 'crossorigin', 4)
     if ck:
@@ -1477,7 +1507,11 @@ def _append_link(v):
     v.check('only-the-link-header-changes', H1.eq(E))
 
 
-_LINK_DEFAULTS = {'X-shape': [0]}
+_LINK_DEFAULTS = {'X-shape': [0], 'uri-sample': [1]}
+# concrete non-ASCII samples for the URI-bearing arguments first (the real encoders run: counter-models replay) ...
+harness(PROP, RESP + '.append_link', name='append_link[samples]', setup=_prop_setup,
+        only={'X-shape': [0], 'uri-sample': [0], 'title?': [0], 'type_hint?': [0], 'hreflang': [0], 'link_extension': [0]})(_append_link)
+# ... then arbitrary strings, every combination of the optional arguments
 for _rk in range(3):
     for _ck in range(4):
         harness(PROP, RESP + '.append_link', name='append_link[rel=%d,crossorigin=%d]' % (_rk, _ck), setup=_prop_setup,
@@ -1485,9 +1519,91 @@ for _rk in range(3):
 
 
 KILLS = [
-    # name normalisation dropped in ONE method
-    ('falcon/response.py', "        value = str(value)\n\n        # NOTE(kgriffs): normalize name by lowercasing it\n        name = name.lower()\n\n        if name == 'set-cookie':\n            raise HeaderNotSupported('This method cannot be used to set cookies')\n\n        self._headers[name] = value\n",
-     "        value = str(value)\n\n        if name.lower() == 'set-cookie':\n            raise HeaderNotSupported('This method cannot be used to set cookies')\n\n        self._headers[name] = value\n",
+    # 0  name normalisation dropped in ONE method (set_header stores under the name as given)
+    ('falcon/response.py',
+     "        value = str(value)\n\n        # NOTE(kgriffs): normalize name by lowercasing it\n        name = name.lower()\n\n        if name == 'set-cookie':\n"
+     "            raise HeaderNotSupported('This method cannot be used to set cookies')\n\n        self._headers[name] = value\n",
+     "        value = str(value)\n\n        if name.lower() == 'set-cookie':\n"
+     "            raise HeaderNotSupported('This method cannot be used to set cookies')\n\n        self._headers[name] = value\n",
      'Response.set_header#stores-str-of-value-under-the-lower-cased-name-and-nothing-else'),
+    # 1  get_header looks the name up as given
+    ('falcon/response.py',
+     "        name = name.lower()\n\n        if name == 'set-cookie':\n            raise HeaderNotSupported('Getting Set-Cookie is not currently supported.')\n",
+     "        if name.lower() == 'set-cookie':\n            raise HeaderNotSupported('Getting Set-Cookie is not currently supported.')\n",
+     'Response.get_header#returns-the-value-stored-under-the-lower-cased-name'),
+    # 2  Set-Cookie guard removed from delete_header
+    ('falcon/response.py', "        if name == 'set-cookie':\n            raise HeaderNotSupported('This method cannot be used to remove cookies')\n\n", '',
+     'Response.delete_header#set-cookie-cannot-be-deleted'),
+    # 3  Set-Cookie guard removed from set_headers
+    ('falcon/response.py', "            if name == 'set-cookie':\n                raise HeaderNotSupported('This method cannot be used to set cookies')\n\n            _headers[name] = value\n",
+     "            _headers[name] = value\n", 'Response.set_headers#set-cookie-cannot-be-set-in-bulk'),
+    # 4  append overwrites instead of joining
+    ('falcon/response.py', "            if name in self._headers:\n                value = self._headers[name] + ', ' + value\n\n", '',
+     'Response.append_header#joins-with-comma-space-when-present-else-stores-and-nothing-else'),
+    # 5  frame: set_header also drops another header
+    ('falcon/response.py', "            raise HeaderNotSupported('This method cannot be used to set cookies')\n\n        self._headers[name] = value\n\n    def delete_header",
+     "            raise HeaderNotSupported('This method cannot be used to set cookies')\n\n        self._headers[name] = value\n        self._headers.pop('content-length', None)\n\n    def delete_header",
+     'Response.set_header#frame-at-any-other-key'),
+    # 6  the default content-type overrides an explicit one (WSGI emission)
+    ('falcon/response.py', "        if media_type is not None and 'content-type' not in headers:\n            headers['content-type'] = media_type\n",
+     "        if media_type is not None:\n            headers['content-type'] = media_type\n",
+     'Response._wsgi_headers#default-content-type-only-when-absent-never-overrides'),
+    # 7  cookies merged into one Set-Cookie line
+    ('falcon/response.py', "            items += [('set-cookie', c.OutputString()) for c in self._cookies.values()]\n",
+     "            items += [('set-cookie', ', '.join([c.OutputString() for c in self._cookies.values()]))]\n",
+     'Response._wsgi_headers#then-the-raw-lines-then-one-set-cookie-line-per-cookie'),
+    # 8  ASGI: cookie lines emitted with a capitalised name
+    ('falcon/asgi/response.py', "                (b'set-cookie', c.OutputString().encode('ascii'))\n", "                (b'Set-Cookie', c.OutputString().encode('ascii'))\n",
+     'Response._asgi_headers#then-the-raw-lines-then-one-set-cookie-line-per-cookie-as-lower-case-bytes'),
+    # 9  ASGI: raw Set-Cookie lines forgotten
+    ('falcon/asgi/response.py', "        if self._extra_headers:\n            items += [\n                (n.encode('ascii'), v.encode('ascii')) for n, v in self._extra_headers\n            ]\n", '',
+     'Response._asgi_headers#then-the-raw-lines-then-one-set-cookie-line-per-cookie-as-lower-case-bytes'),
+    # 10 a typed property writes a different header
+    ('falcon/response.py', "    location: Optional[str] = _header_property(\n        'Location',\n", "    location: Optional[str] = _header_property(\n        'Content-Location',\n",
+     'Response.location#stores-the-transformed-value-under-its-fixed-lower-case-name-and-nothing-else'),
+    # 11 the factory forgets the transform
+    ('falcon/response_helpers.py', '                self._headers[normalized_name] = transform(value)\n', '                self._headers[normalized_name] = str(value)\n',
+     '_header_property#fset-applies-the-transform-exactly-once-to-the-value'),
+    # 12 the factory stores under the name as given (not lower-cased)
+    ('falcon/response_helpers.py', '    normalized_name = name.lower()\n', '    normalized_name = name\n',
+     '_header_property#fset-stores-the-transformed-value-under-the-lower-case-name-and-nothing-else'),
+    # 13 the app option for Secure is ignored
+    ('falcon/response.py', '        is_secure = self.options.secure_cookies_by_default if secure is None else secure\n', '        is_secure = True if secure is None else secure\n',
+     'Response.set_cookie#cookie-carries-exactly-the-requested-attributes'),
+    # 14 samesite is not validated
+    ('falcon/response.py', "            if same_site not in _RESERVED_SAMESITE_VALUES:\n                raise ValueError(\n"
+     "                    \"same_site must be set to either 'lax', 'strict', or 'none'\"\n                )\n\n", '',
+     'Response.set_cookie#invalid-samesite-raises-valueerror'),
+    # 15 max_age is not coerced to int
+    ('falcon/response.py', "            self._cookies[name]['max-age'] = int(max_age)\n", "            self._cookies[name]['max-age'] = max_age\n",
+     'Response.set_cookie#cookie-carries-exactly-the-requested-attributes'),
+    # 16 an aware expires is formatted without converting to UTC
+    ('falcon/response.py', "                gmt_expires = expires.astimezone(timezone.utc)\n", "                gmt_expires = expires\n",
+     'Response.set_cookie#aware-expires-converted-to-utc-then-formatted'),
+    # 17 unset_cookie does not expire the cookie
+    ('falcon/response.py', "        self._cookies[name]['expires'] = -1\n", "        self._cookies[name]['expires'] = 3600\n",
+     'Response.unset_cookie#unset-cookie-is-expired'),
+    # 18 the Link anchor is emitted without URI encoding
+    ('falcon/response.py', "            value += f'; anchor=\"{uri_encode(anchor)}\"'\n", "            value += f'; anchor=\"{anchor}\"'\n",
+     'Response.append_link#link-value-has-the-uri-parts-encoded-and-is-appended-comma-separated'),
+    # 19 a second link overwrites the first
+    ('falcon/response.py', "            _headers['link'] += f', {value}'\n", "            _headers['link'] = value\n",
+     'Response.append_link#link-value-has-the-uri-parts-encoded-and-is-appended-comma-separated'),
+    # 20 non-ASCII download filenames are emitted raw
+    ('falcon/response_helpers.py', "    if value.isascii():\n        return '%s; filename=\"%s\"' % (disposition_type, value)\n", "    if True:\n        return '%s; filename=\"%s\"' % (disposition_type, value)\n",
+     'Response.downloadable_as#stores-the-transformed-value-under-its-fixed-lower-case-name-and-nothing-else'),
 ]
-HARMLESS = []
+HARMLESS = [
+    # locals renamed in set_header
+    ('falcon/response.py',
+     "        value = str(value)\n\n        # NOTE(kgriffs): normalize name by lowercasing it\n        name = name.lower()\n\n        if name == 'set-cookie':\n"
+     "            raise HeaderNotSupported('This method cannot be used to set cookies')\n\n        self._headers[name] = value\n",
+     "        key = name.lower()\n        text = str(value)\n\n        if key == 'set-cookie':\n"
+     "            raise HeaderNotSupported('This method cannot be used to set cookies')\n\n        headers = self._headers\n        headers[key] = text\n"),
+    # two independent attribute blocks of set_cookie swapped
+    ('falcon/response.py', "        if domain:\n            self._cookies[name]['domain'] = domain\n\n        if path:\n            self._cookies[name]['path'] = path\n\n        is_secure",
+     "        if path:\n            self._cookies[name]['path'] = path\n\n        if domain:\n            self._cookies[name]['domain'] = domain\n\n        is_secure"),
+    # _wsgi_headers: setdefault-style rewrite of the default content-type
+    ('falcon/response.py', "        if media_type is not None and 'content-type' not in headers:\n            headers['content-type'] = media_type\n",
+     "        if media_type is not None:\n            if 'content-type' not in headers:\n                headers['content-type'] = media_type\n"),
+]
